@@ -410,7 +410,7 @@ def _run_one(cfg, rec):
                 rec.proved[n_] = rec.proved.get(n_, 0) + 1
                 continue
             rec.check(ctx, n_, g, fp, wit, extra=out["contract"], timeout_ms=10000)
-        rec.sample({"config": cfg["name"], "pc": [str(c)[:80] for c in ctx.pc][:4], "rates": [str(zreal(x))[:60] for x in r]})
+        rec.want_sample() and rec.sample({"config": cfg["name"], "pc": [str(c)[:80] for c in ctx.pc][:4], "rates": [str(zreal(x))[:60] for x in r]})
     env = {}
     rec.validations.append((cfg["name"], {"__item": cfg}, {"ok": True})) if len(rec.validations) < 6 else None
 
